@@ -1,0 +1,6 @@
+//go:build !verif
+
+package history
+
+// verifFileFault never injects a fault without the "verif" build tag.
+func verifFileFault(int) (int, error) { return 0, nil }
